@@ -1979,10 +1979,28 @@ class FuncEmitter:
                 if i.op == 'invoke' and name not in ('__cxa_throw', '__cxa_rethrow'):
                     B.append(self.goto(i.a['normal']))
                 return
+            if name in ('_Znwm', '_Znam') and res and len(args) == 1 and args[0].k == 'int':
+                # operator new(sizeof(T)) whose result is cast to T*: allocate a *typed* object.  CBMC types a heap object by the
+                # sizeof expression handed to malloc; an untyped one is a byte array, and every field access of the object
+                # becomes a byte extract/update over that array (measured: 187M clauses for one 2 KB object).
+                tt = None
+                for d in self.defs().values():
+                    if d.op == 'cast' and d.a[0] == 'bitcast' and d.a[1].k == 'local' and d.a[1].d == i.res and d.t.k == 'ptr' and d.t.a.k == 'named':
+                        try:
+                            if em.size_align(d.t.a)[0] == int(args[0].d):
+                                tt = d.t.a
+                                break
+                        except ValueError:
+                            pass
+                if tt is not None:
+                    B.append('{ _Static_assert(sizeof(%s) == %d, "typed new: layout"); u8 *__p = (u8*)malloc(sizeof(%s)); __CPROVER_assume(__p != 0); %s__p; }'
+                             % (em.ct(tt), int(args[0].d), em.ct(tt), res))
+                    self.after_call(i, name)
+                    return
             tname = em.redirect.get(name, name)
             if name in em.redirect_self and self.f.name == name:
                 tname = em.redirect_self[name]
-            if name in em.redirect_cdns and self.f.name.startswith(('_ZN4CDNS', '_ZNK4CDNS')):
+            if name in em.redirect_cdns and self.f.name.startswith(('_ZN4CDNS', '_ZNK4CDNS', '_ZZN4CDNS', '_ZZNK4CDNS')):    # members of CDNS classes and the lambdas defined inside them
                 tname = em.redirect_cdns[name]
             f = em.m.funcs.get(tname) or em.m.funcs.get(name)
             argv = []
